@@ -12,7 +12,7 @@ import "sync"
 // been released exactly once; the directory reopens to a prefix of the history
 // containing every batch whose persisted-callback reported success.
 //
-// vf:harness property=C11 cases=order:0..1;pace:0,13 cases.thorough=order:0..2;pace:0,4,13,21,26 sched=1 schedbudget=1 schedbudget.thorough=2 preempt=1 schedtotal=1 schedtotal.thorough=2 goinline=1 chanslack=8 deadlock=violation clock=zero maxpaths=400000 replay=model-only diff=off
+// vf:harness property=C11 cases=order:0..1;pace:0,13 cases.thorough=order:0..1;pace:0,13,26 sched=1 schedbudget=1 schedbudget.thorough=2 preempt=1 schedtotal=1 schedtotal.thorough=2 goinline=1 chanslack=8 deadlock=violation clock=zero maxpaths=400000 replay=model-only diff=off
 // vf:replace hash/crc32.Update vfChecksumUpdate
 // vf:replace io.CopyN vfCopyN
 // vf:replace (*github.com/RoaringBitmap/roaring.Bitmap).ReadFrom vfRoaringReadFrom
@@ -110,7 +110,7 @@ func vfLiveCloseAnytime(inflight int, pace int) {
 // answering and nothing backing it is released before it is closed (registered
 // under C04 so that C04's own check reports it).
 //
-// vf:harness property=C04 cases=order:1;pace:0,13 cases.thorough=order:0..2;pace:0,13,26 sched=1 schedbudget=1 schedbudget.thorough=2 preempt=1 schedtotal=1 schedtotal.thorough=2 goinline=1 chanslack=8 deadlock=violation clock=zero maxpaths=400000 replay=model-only diff=off
+// vf:harness property=C04 cases=order:1;pace:0,13 cases.thorough=order:1;pace:0,13 sched=1 schedbudget=1 schedbudget.thorough=2 preempt=1 schedtotal=1 schedtotal.thorough=2 goinline=1 chanslack=8 deadlock=violation clock=zero maxpaths=400000 replay=model-only diff=off
 // vf:replace hash/crc32.Update vfChecksumUpdate
 // vf:replace io.CopyN vfCopyN
 // vf:replace (*github.com/RoaringBitmap/roaring.Bitmap).ReadFrom vfRoaringReadFrom
